@@ -1,8 +1,12 @@
 //! lv_wire: client/server encodings (C16, C17).
+mod intcol;
+mod rows;
 mod xor;
 
 fn main() {
     let mut v: Vec<Box<dyn lvharness::suite::Suite>> = vec![];
     v.extend(xor::suites());
+    v.extend(intcol::suites());
+    v.extend(rows::suites());
     lvharness::cli_main(v);
 }
